@@ -246,36 +246,56 @@ def harness_env():
             "RUSTFLAGS": "--cfg %s -Awarnings" % CFG_GUARD}
 
 
-def _override_paths():
+def _alt_harness():
     """When VERIF_REPO points at another checkout (a scratch worktree carrying a candidate
-    change), override every /repo path dependency with the same crate from that checkout."""
+    change), build from a mirror of harness/ whose path dependencies point into that checkout
+    (Cargo.toml files rewritten, src directories symlinked), with its own target directory."""
     if os.path.realpath(REPO) == "/repo":
-        return [], TARGET
-    dirs = []
-    for root, d, files in os.walk(REPO):
-        d[:] = [x for x in d if x not in ("target", ".git", "fuzz")]
-        if "Cargo.toml" in files and "[package]" in open(os.path.join(root, "Cargo.toml")).read():
-            dirs.append(root)
+        return HARNESS, TARGET
     tag = hashlib.sha256(os.path.realpath(REPO).encode()).hexdigest()[:8]
-    return ["--config", "paths=%s" % json.dumps(sorted(dirs))], os.path.join(CACHE, "target-alt-" + tag)
+    alt = os.path.join(CACHE, "harness-alt-" + tag)
+    root = os.path.realpath(REPO)
+    for d, subdirs, files in os.walk(HARNESS):
+        subdirs[:] = [x for x in subdirs if x not in ("target",)]
+        rel = os.path.relpath(d, HARNESS)
+        out = os.path.join(alt, rel) if rel != "." else alt
+        if os.path.basename(d) == "src":
+            subdirs[:] = []
+            os.makedirs(os.path.dirname(out), exist_ok=True)
+            if os.path.islink(out):
+                os.unlink(out)
+            if not os.path.exists(out):
+                os.symlink(d, out)
+            continue
+        os.makedirs(out, exist_ok=True)
+        for f in files:
+            if f == "Cargo.lock":
+                continue
+            txt = open(os.path.join(d, f)).read()
+            if f == "Cargo.toml":
+                txt = txt.replace('"/repo/', '"%s/' % root)
+            dst = os.path.join(out, f)
+            if not os.path.exists(dst) or open(dst).read() != txt:
+                open(dst, "w").write(txt)
+    return alt, os.path.join(CACHE, "target-alt-" + tag)
 
 
 def harness_build(binname, release=False, timeout=3000, package=None):
     """Build one harness binary against the repository's working tree. Returns (ok, path, log)."""
-    extra, target = _override_paths()
+    hdir, target = _alt_harness()
     with Lock("cargo-" + os.path.basename(target)):
         lock_src = os.path.join(REPO, "Cargo.lock")
-        lock_dst = os.path.join(HARNESS, "Cargo.lock")
+        lock_dst = os.path.join(hdir, "Cargo.lock")
         if not os.path.exists(lock_dst) or open(lock_src).read() != open(lock_dst).read():
             shutil.copy(lock_src, lock_dst)
-        cmd = ["cargo", "build", "--offline", "--bin", binname] + extra
+        cmd = ["cargo", "build", "--offline", "--bin", binname]
         if package:
             cmd += ["-p", package]
         if release:
             cmd.append("--release")
         env = harness_env()
         env["CARGO_TARGET_DIR"] = target
-        rc, out = sh(cmd, cwd=HARNESS, env=env, timeout=timeout)
+        rc, out = sh(cmd, cwd=hdir, env=env, timeout=timeout)
     path = os.path.join(target, "release" if release else "debug", binname)
     return rc == 0, path, out
 
